@@ -2551,7 +2551,8 @@ def optimise_quantize(op: Operation, arch, nng):
             for val in input_values:
 
                 # Derive quantized value
-                quant_val = (val / ofm.quantization.scale_f32) + ofm.quantization.zero_point
+                # the quotient is evaluated in float32 like the reference; widen before rounding so that adding 0.5 is exact
+                quant_val = round_away_zero(np.float64(val / ofm.quantization.scale_f32)) + ofm.quantization.zero_point
                 clamped_quantized_val = np.clip(quant_val, ofm.quantization.quant_min, ofm.quantization.quant_max)
                 quantized_vals.append(clamped_quantized_val)
 
